@@ -1,5 +1,8 @@
-//! C18 executor.  One line in: `<op> <a-hex> <b-hex>` (two binary64 bit patterns; `op` is only
-//! echoed by the driver, every observation is always produced).  One line out, decimal tokens:
+//! C18 executor.
+//!
+//! ## The pair script: `<op> <a-hex> <b-hex> [route]`
+//! (two binary64 bit patterns; `op` is only echoed by the driver, every observation is always produced).
+//! One line out, decimal tokens:
 //!   raw(x) raw(y) raw(x+y) raw(x-y) raw(x*y) raw(x/y) raw(-x) raw(x*y+x) raw((x*y+x)/y)    (9 x `se m`)
 //!   bits(f64(x)) bits(f64(x+y)) bits(f64(x-y)) bits(f64(x*y)) bits(f64(x/y)) bits(f64(chain))
 //!   lt le gt ge eq (0/1)  partial_cmp (0 None 1 Less 2 Equal 3 Greater)
@@ -14,8 +17,35 @@
 //!   raw(abs m) raw(abs p) raw(abs q) raw(abs s)
 //! where rel(u,v) = `code raw(u.min(v)) raw(u.max(v))` and
 //!   code = [u<v] + 2[u<=v] + 4[u>v] + 8[u>=v] + 16[u==v] + 32*partial_cmp(u,v).
+//!
+//! `route` (optional, a string of letters, `-` = none) selects OTHER ENTRY POINTS of the crate that must produce
+//! the very same observation line (the line is fed to the same Coq case constructor):
+//!   a  the arithmetic goes through the assigning operators (`t = x; t += y`, ..., `acc = p; acc += x; acc /= y`)
+//!   c  an operand whose pattern is +0.0 / 1.0 is `f80::ZERO` (`f80::default()` for the second operand) / `f80::ONE`
+//!      instead of `f80::from(..)`
+//!   s  when a == b, the relations on (x, y) are called with the SAME reference twice (`x == x`, `x.partial_cmp(&x)`)
+//!   l  every `partial_cmp` of the line is evaluated inside a loop over copies made by a pattern
+//!      (`for &(u, v) in pairs { u.partial_cmp(&v) }`): nothing but `partial_cmp` ever looks at those temporaries
+//!   t  the whole script runs on a freshly spawned thread (that never called `f80_init`)
+//!   i  `f80_init()` is called (again) immediately before the script, and once more between arithmetic and relations
+//!
+//! Independently of the route, every case evaluates a number of INTERNAL CONSISTENCY checks between entry points
+//! (assigning vs. by-value operators, `!=` vs. `==`, same-reference vs. two-object comparisons, constants vs.
+//! conversions, `partial_cmp` inside filter/count, running maximum, `max_by`, `sort_by` over fresh copies vs. the
+//! operators).  If one fails the line printed is `X <names of the failed checks>` instead of the observation:
+//! such a line never has the agreed shape, so the case fails both Coq checks.
+//!
+//! ## Straight-line programs: `trace <a-hex> <b-hex> <n> (<op> <i> <j>){n}`
+//! registers r0 = f80::from(a), r1 = f80::from(b); step k computes r(k+2) = op(r_i, r_j); ops:
+//!   add sub mul div (by value)  adda suba mula diva (assigning form)  neg abs (of r_i)  min max
+//!   rnd = f80::from(f64::from(r_i))
+//! One line out: `T raw(r0) raw(r1)` then per step `raw(result) bits(f64::from(result)) code` where code is the
+//! relation code (as above) of the ordered operand pair (r_i, r_j), taken through references to the two
+//! registers (the same reference twice when i = j).
 use rlib_f80::f80;
+use rlib_num_traits::ZeroOne;
 use std::cmp::Ordering;
+use std::hint::black_box;
 
 fn raw(x: f80) -> (u16, u64) {
     // `#[repr(align(16))] struct f80([u8; 10])`: the value is the first 10 bytes
@@ -26,8 +56,18 @@ fn raw(x: f80) -> (u16, u64) {
     )
 }
 
-fn pcmp(u: f80, v: f80) -> u32 {
-    match u.partial_cmp(&v) {
+fn is_nan_raw(r: (u16, u64)) -> bool {
+    (r.0 & 0x7FFF) == 0x7FFF && r.1 != 1 << 63
+}
+
+/// same 10 bytes (NaNs as a class)
+fn same(u: f80, v: f80) -> bool {
+    let (a, b) = (raw(u), raw(v));
+    a == b || (is_nan_raw(a) && is_nan_raw(b))
+}
+
+fn ord_code(o: Option<Ordering>) -> u32 {
+    match o {
         None => 0,
         Some(Ordering::Less) => 1,
         Some(Ordering::Equal) => 2,
@@ -40,59 +80,370 @@ fn push_raw(out: &mut Vec<String>, r: f80) {
     out.push(format!("{} {}", se, m));
 }
 
-/// every relation of the crate on the ordered pair (u, v)
-fn rel(out: &mut Vec<String>, u: f80, v: f80) {
-    let code = (u < v) as u32
-        + 2 * ((u <= v) as u32)
-        + 4 * ((u > v) as u32)
-        + 8 * ((u >= v) as u32)
-        + 16 * ((u == v) as u32)
-        + 32 * pcmp(u, v);
-    out.push(format!("{}", code));
-    push_raw(out, u.min(v));
-    push_raw(out, u.max(v));
+/// every relation of the crate on the ordered pair (*u, *v), through the given references
+/// (`*u < *v` is `PartialOrd::lt(&*u, &*v)`: no copy is made)
+fn rel_code(u: &f80, v: &f80, fails: &mut Vec<&'static str>) -> u32 {
+    let eq = *u == *v;
+    let ne = *u != *v;
+    if eq == ne {
+        fails.push("ne-is-not-the-negation-of-eq");
+    }
+    (*u < *v) as u32
+        + 2 * ((*u <= *v) as u32)
+        + 4 * ((*u > *v) as u32)
+        + 8 * ((*u >= *v) as u32)
+        + 16 * (eq as u32)
+        + 32 * ord_code(u.partial_cmp(v))
+}
+
+/// `partial_cmp` of every pair, evaluated on copies made by the loop pattern: only `partial_cmp` reads them
+#[inline(never)]
+fn pcmp_loop(pairs: &[(f80, f80)]) -> Vec<u32> {
+    let mut out = Vec::with_capacity(pairs.len());
+    for &(u, v) in pairs {
+        out.push(ord_code(u.partial_cmp(&v)));
+    }
+    out
+}
+
+#[inline(never)]
+fn pcmp_zip(us: &[f80], vs: &[f80]) -> Vec<u32> {
+    us.iter().zip(vs.iter()).map(|(&u, &v)| ord_code(u.partial_cmp(&v))).collect()
+}
+
+#[inline(never)]
+fn count_by_pcmp(vals: &[f80], pivot: f80, want: Option<Ordering>) -> usize {
+    vals.iter().filter(|&&u| u.partial_cmp(&pivot) == want).count()
+}
+
+#[inline(never)]
+fn running_max_pcmp(vals: &[f80]) -> f80 {
+    let mut best = vals[0];
+    for &u in &vals[1..] {
+        if u.partial_cmp(&best) == Some(Ordering::Greater) {
+            best = u;
+        }
+    }
+    best
+}
+
+#[inline(never)]
+fn running_min_pcmp(vals: &[f80]) -> f80 {
+    vals.iter().copied().fold(vals[0], |acc, u| if u.partial_cmp(&acc) == Some(Ordering::Less) { u } else { acc })
+}
+
+/// the loop idioms in which user code calls `partial_cmp`, against the operators on the stored values
+fn idioms(vals: &[f80], pivot: f80, fails: &mut Vec<&'static str>) {
+    // filter / count
+    let (mut lt, mut eq, mut gt, mut un) = (0usize, 0usize, 0usize, 0usize);
+    for u in vals {
+        if *u < pivot {
+            lt += 1;
+        } else if *u > pivot {
+            gt += 1;
+        } else if *u == pivot {
+            eq += 1;
+        } else {
+            un += 1;
+        }
+    }
+    if count_by_pcmp(vals, pivot, Some(Ordering::Less)) != lt
+        || count_by_pcmp(vals, pivot, Some(Ordering::Equal)) != eq
+        || count_by_pcmp(vals, pivot, Some(Ordering::Greater)) != gt
+        || count_by_pcmp(vals, pivot, None) != un
+    {
+        fails.push("filter-count-by-partial_cmp");
+    }
+    // running maximum / minimum
+    let mut best = 0usize;
+    let mut least = 0usize;
+    for k in 1..vals.len() {
+        if vals[k] > vals[best] {
+            best = k;
+        }
+        if vals[k] < vals[least] {
+            least = k;
+        }
+    }
+    if !same(running_max_pcmp(vals), vals[best]) {
+        fails.push("running-maximum-by-partial_cmp");
+    }
+    if !same(running_min_pcmp(vals), vals[least]) {
+        fails.push("fold-minimum-by-partial_cmp");
+    }
+    // max_by / sort_by on the ordered (non-NaN) values
+    let ordered: Vec<f80> = vals.iter().copied().filter(|u| *u == *u).collect();
+    if !ordered.is_empty() {
+        let mx = ordered.iter().copied().max_by(|a, b| a.partial_cmp(b).unwrap_or(Ordering::Equal)).unwrap();
+        if ordered.iter().any(|u| *u > mx) {
+            fails.push("max_by-partial_cmp");
+        }
+        let mut sorted = ordered.clone();
+        sorted.sort_by(|a, b| a.partial_cmp(b).unwrap_or(Ordering::Equal));
+        if sorted.windows(2).any(|w| w[1] < w[0]) {
+            fails.push("sort_by-partial_cmp");
+        }
+    }
+}
+
+#[derive(Clone, Copy, Default)]
+struct Route {
+    assign: bool,
+    consts: bool,
+    selfref: bool,
+    looped: bool,
+    thread: bool,
+    init: bool,
+}
+
+fn parse_route(s: &str) -> Route {
+    let mut r = Route::default();
+    for c in s.chars() {
+        match c {
+            'a' => r.assign = true,
+            'c' => r.consts = true,
+            's' => r.selfref = true,
+            'l' => r.looped = true,
+            't' => r.thread = true,
+            'i' => r.init = true,
+            '-' => {}
+            _ => {
+                eprintln!("harness: unknown route letter {:?}", c);
+                std::process::exit(3)
+            }
+        }
+    }
+    r
+}
+
+const ONE_BITS: u64 = 0x3FF0000000000000;
+
+fn operand(bits: u64, consts: bool, second: bool) -> f80 {
+    if consts && bits == 0 {
+        return if second { f80::default() } else { f80::ZERO };
+    }
+    if consts && bits == ONE_BITS {
+        return f80::ONE;
+    }
+    f80::from(f64::from_bits(bits))
+}
+
+fn script(abits: u64, bbits: u64, rt: Route) -> String {
+    let mut fails: Vec<&'static str> = Vec::new();
+    if rt.init {
+        rlib_f80::f80_init();
+    }
+    let (x, y) = (operand(abits, rt.consts, false), operand(bbits, rt.consts, true));
+    // the constants are the conversions of 0.0 and 1.0 (whose raws Coq checks whenever a pattern is 0.0 / 1.0)
+    if raw(f80::ZERO) != raw(f80::from(0.0)) || raw(f80::default()) != raw(f80::from(0.0)) {
+        fails.push("ZERO-or-default-is-not-from-0.0");
+    }
+    if raw(f80::ONE) != raw(f80::from(1.0)) {
+        fails.push("ONE-is-not-from-1.0");
+    }
+    // by-value operators
+    let (s1, d1, p1, q1) = (x + y, x - y, x * y, x / y);
+    let mad1 = x * y + x;
+    let ch1 = mad1 / y;
+    // assigning operators
+    let mut s2 = x;
+    s2 += y;
+    let mut d2 = x;
+    d2 -= y;
+    let mut p2 = x;
+    p2 *= y;
+    let mut q2 = x;
+    q2 /= y;
+    let mut acc = p2;
+    acc += x;
+    let mad2 = acc;
+    acc /= y;
+    let ch2 = acc;
+    if !same(s1, s2) {
+        fails.push("add_assign-differs-from-add");
+    }
+    if !same(d1, d2) {
+        fails.push("sub_assign-differs-from-sub");
+    }
+    if !same(p1, p2) {
+        fails.push("mul_assign-differs-from-mul");
+    }
+    if !same(q1, q2) {
+        fails.push("div_assign-differs-from-div");
+    }
+    if !same(mad1, mad2) || !same(ch1, ch2) {
+        fails.push("assign-chain-differs-from-operator-chain");
+    }
+    let (s, d, p, q, mad, ch) = if rt.assign { (s2, d2, p2, q2, mad2, ch2) } else { (s1, d1, p1, q1, mad1, ch1) };
+    let n = -x;
+    if rt.init {
+        rlib_f80::f80_init();
+    }
+    let mut out: Vec<String> = Vec::new();
+    for r in [x, y, s, d, p, q, n, mad, ch] {
+        push_raw(&mut out, r);
+    }
+    for r in [x, s, d, p, q, ch] {
+        out.push(format!("{}", f64::from(r).to_bits()));
+    }
+    // relations on operands that need the extended format
+    let ext = [mad, p, q, s];
+    let through64: Vec<f80> = ext.iter().map(|&e| f80::from(f64::from(e))).collect();
+    // the twelve ordered pairs of the line: (x, y) and the eleven of the extended group
+    let mut pairs: Vec<(f80, f80)> = vec![(x, y)];
+    for (&e, &ne) in ext.iter().zip(through64.iter()) {
+        pairs.push((e, ne));
+        pairs.push((ne, e));
+    }
+    pairs.push((mad, p));
+    pairs.push((p, s));
+    pairs.push((s, q));
+    let mut codes: Vec<u32> = Vec::with_capacity(pairs.len());
+    for (k, (u, v)) in pairs.iter().enumerate() {
+        let c = if k == 0 && rt.selfref && abits == bbits { rel_code(u, u, &mut fails) } else { rel_code(u, v, &mut fails) };
+        codes.push(c);
+    }
+    // partial_cmp on loop temporaries
+    let lp = pcmp_loop(&pairs);
+    let us: Vec<f80> = pairs.iter().map(|t| t.0).collect();
+    let vs: Vec<f80> = pairs.iter().map(|t| t.1).collect();
+    let lz = pcmp_zip(&us, &vs);
+    for k in 0..pairs.len() {
+        if lp[k] != codes[k] >> 5 || lz[k] != codes[k] >> 5 {
+            fails.push("partial_cmp-on-loop-temporaries-differs");
+            break;
+        }
+    }
+    if rt.looped {
+        for k in 0..pairs.len() {
+            codes[k] = (codes[k] & 31) + 32 * lp[k];
+        }
+    }
+    // the same object on both sides against two objects holding the same bytes
+    for u in [x, y, mad, p, q, s, n] {
+        let copy = black_box(u);
+        let mut dummy = Vec::new();
+        if rel_code(&u, &u, &mut fails) != rel_code(&u, &copy, &mut dummy) {
+            fails.push("same-reference-comparison-differs-from-two-objects");
+            break;
+        }
+    }
+    idioms(&[x, y, s, d, p, q, n, mad, ch], y, &mut fails);
+    idioms(&[mad, through64[0], p, through64[1], q, through64[2], s, through64[3]], p, &mut fails);
+
+    let c0 = codes[0];
+    for bit in 0..5 {
+        out.push(format!("{}", (c0 >> bit) & 1));
+    }
+    out.push(format!("{}", c0 >> 5));
+    for r in [x.min(y), x.max(y), x.abs()] {
+        push_raw(&mut out, r);
+    }
+    out.push(format!("{}", f64::from(mad).to_bits()));
+    for &r in &through64 {
+        push_raw(&mut out, r);
+    }
+    for k in 1..pairs.len() {
+        let (u, v) = pairs[k];
+        out.push(format!("{}", codes[k]));
+        push_raw(&mut out, u.min(v));
+        push_raw(&mut out, u.max(v));
+    }
+    for &e in &ext {
+        push_raw(&mut out, e.abs());
+    }
+    if !fails.is_empty() {
+        fails.sort();
+        fails.dedup();
+        return format!("X {}", fails.join(" "));
+    }
+    out.join(" ")
+}
+
+fn trace(t: &[&str]) -> String {
+    let a = f64::from_bits(u64::from_str_radix(t[1], 16).expect("hex"));
+    let b = f64::from_bits(u64::from_str_radix(t[2], 16).expect("hex"));
+    let n: usize = vh::p(t[3]);
+    let mut regs: Vec<f80> = Vec::with_capacity(n + 2);
+    regs.push(f80::from(a));
+    regs.push(f80::from(b));
+    let mut out: Vec<String> = vec!["T".to_string()];
+    push_raw(&mut out, regs[0]);
+    push_raw(&mut out, regs[1]);
+    let mut fails: Vec<&'static str> = Vec::new();
+    for k in 0..n {
+        let op = t[4 + 3 * k];
+        let i: usize = vh::p(t[5 + 3 * k]);
+        let j: usize = vh::p(t[6 + 3 * k]);
+        let code = rel_code(&regs[i], &regs[j], &mut fails);
+        let (u, v) = (regs[i], regs[j]);
+        let r = match op {
+            "add" => u + v,
+            "sub" => u - v,
+            "mul" => u * v,
+            "div" => u / v,
+            "adda" => {
+                let mut w = u;
+                w += v;
+                w
+            }
+            "suba" => {
+                let mut w = u;
+                w -= v;
+                w
+            }
+            "mula" => {
+                let mut w = u;
+                w *= v;
+                w
+            }
+            "diva" => {
+                let mut w = u;
+                w /= v;
+                w
+            }
+            "neg" => -u,
+            "abs" => u.abs(),
+            "min" => u.min(v),
+            "max" => u.max(v),
+            "rnd" => f80::from(f64::from(u)),
+            _ => {
+                eprintln!("harness: unknown trace op {:?}", op);
+                std::process::exit(3)
+            }
+        };
+        push_raw(&mut out, r);
+        out.push(format!("{} {}", f64::from(r).to_bits(), code));
+        regs.push(r);
+    }
+    if !fails.is_empty() {
+        fails.sort();
+        fails.dedup();
+        return format!("X {}", fails.join(" "));
+    }
+    out.join(" ")
 }
 
 fn main() {
-    rlib_f80::f80_init();
+    // C18_NO_INIT=1: the process never calls f80_init (legal on Linux, where it does nothing)
+    if std::env::var_os("C18_NO_INIT").is_none() {
+        rlib_f80::f80_init();
+    }
     vh::serve(|t| {
-        let a = f64::from_bits(u64::from_str_radix(t[1], 16).expect("hex"));
-        let b = f64::from_bits(u64::from_str_radix(t[2], 16).expect("hex"));
-        let (x, y) = (f80::from(a), f80::from(b));
-        let (s, d, p, q, n) = (x + y, x - y, x * y, x / y, -x);
-        let mad = x * y + x;
-        let ch = mad / y;
-        let mut out: Vec<String> = Vec::new();
-        for r in [x, y, s, d, p, q, n, mad, ch] {
-            push_raw(&mut out, r);
+        if t[0] == "trace" {
+            return trace(t);
         }
-        for r in [x, s, d, p, q, ch] {
-            out.push(format!("{}", f64::from(r).to_bits()));
+        let abits = u64::from_str_radix(t[1], 16).expect("hex");
+        let bbits = u64::from_str_radix(t[2], 16).expect("hex");
+        let rt = if t.len() > 3 { parse_route(t[3]) } else { Route::default() };
+        if rt.thread {
+            let rt2 = rt;
+            match std::thread::spawn(move || script(abits, bbits, rt2)).join() {
+                Ok(s) => s,
+                Err(_) => "P".to_string(),
+            }
+        } else {
+            script(abits, bbits, rt)
         }
-        for v in [x < y, x <= y, x > y, x >= y, x == y] {
-            out.push(format!("{}", v as u8));
-        }
-        out.push(format!("{}", pcmp(x, y)));
-        for r in [x.min(y), x.max(y), x.abs()] {
-            push_raw(&mut out, r);
-        }
-        // relations on operands that need the extended format
-        let ext = [mad, p, q, s];
-        let through64: Vec<f80> = ext.iter().map(|&e| f80::from(f64::from(e))).collect();
-        out.push(format!("{}", f64::from(mad).to_bits()));
-        for &r in &through64 {
-            push_raw(&mut out, r);
-        }
-        for (&e, &ne) in ext.iter().zip(through64.iter()) {
-            rel(&mut out, e, ne);
-            rel(&mut out, ne, e);
-        }
-        rel(&mut out, mad, p);
-        rel(&mut out, p, s);
-        rel(&mut out, s, q);
-        for &e in &ext {
-            push_raw(&mut out, e.abs());
-        }
-        out.join(" ")
     });
 }
